@@ -13,6 +13,7 @@ NOT_DECIDED = [
     "that accumulated order equals input order beyond 'push appends' (D1-PRIMITIVE) and 'lines() is in order' (std)",
 ]
 CONFIG_SENSITIVE = False
+DESUGAR = True
 
 MISSING = "summary::MissingVariable"
 DISPLAY_MISSING = "<summary::MissingVariable as std::fmt::Display>::fmt"
@@ -58,7 +59,7 @@ def run(ctx):
                 val = e.args[1]
                 if v["kind"] == "I":
                     pr = find_calls(val, "str>::parse")
-                    okp = len(pr) >= 1 and (pr[0][2] == ("i64",) or "i64" in str(pr[0][2])) and bool(find_calls(val, "Try>::branch"))
+                    okp = len(pr) >= 1 and (pr[0][2] == ("i64",) or "i64" in str(pr[0][2])) and has_try(val)
                     src = call_args(pr[0])[0] if pr else None
                     ok = okp
                     if not okp:
@@ -174,8 +175,9 @@ def run(ctx):
     ips = ctx.paths(IC)
     if ips:
         ibody = ctx.body(IC)
-        tr = [p for p in ret_paths(ips) if const_of(p.end[1]) is True]
-        fl = [p for p in ret_paths(ips) if const_of(p.end[1]) is False]
+        sbr = split_bool_returns(ips)
+        tr = [p for p in sbr if const_of(p.end[1]) is True]
+        fl = [p for p in sbr if const_of(p.end[1]) is False]
         ctx.check(len(tr) == 1, "D2-REQUIRED-COMPLETED", IC, "single-true-path", "exactly one path returns true",
                   "is_completed has %d paths returning true" % len(tr), fn_span(ibody))
         for p in tr:
